@@ -1139,7 +1139,8 @@ impl SendSignal for VirtualSystem {
                 Pid(raw_pid) if raw_pid >= 0 => {
                     let mut state = self.state.borrow_mut();
                     match state.processes.get_mut(&target) {
-                        Some(process) => {
+                        // A process that has been waited for no longer exists.
+                        Some(process) if !process.has_been_reaped() => {
                             if let Some(signal) = signal {
                                 let result = process.raise_signal(signal);
                                 if result.process_state_changed {
@@ -1149,7 +1150,7 @@ impl SendSignal for VirtualSystem {
                             }
                             Ok(())
                         }
-                        None => Err(Errno::ESRCH),
+                        _ => Err(Errno::ESRCH),
                     }
                 }
 
@@ -1483,6 +1484,10 @@ fn send_signal_to_processes(
     let mut results = Vec::new();
 
     for (&_pid, process) in &mut state.processes {
+        // A process that has been waited for no longer exists.
+        if process.has_been_reaped() {
+            continue;
+        }
         if target_pgid.is_none_or(|target_pgid| process.pgid == target_pgid) {
             let result = if let Some(signal) = signal {
                 process.raise_signal(signal)
